@@ -116,6 +116,9 @@ def reference(case, X, A, y, y_err, spec, th_cov, th_mean, use_mp=True):
             "scale_mu": np.abs(mean) + np.abs(K @ A.T) @ np.abs(beta_f) + 1e-300
             + 1e9 * gc.mean_roundoff(case["mean"], th_mean, X) * (1 + np.sum(np.abs(K @ A.T) @ np.abs(sla.pinv(G) @ A), axis=1)),
             "scale_lml": 0.5 * abs(quad) + 0.5 * float(np.sum(np.abs(np.log(np.abs(np.linalg.eigvalsh(G)))))) + m,
+            # round-off of the documented mean function (eps*|x| per centred coordinate times the slope / curvature coefficients)
+            # enters the evidence through the residual y - A m
+            "ro_lml": 16 * gc.mean_roundoff(case["mean"], th_mean, X) * float(np.sum(np.abs(A).T @ np.abs(beta_f))),
             "G": G}, kappa
 
 
@@ -181,7 +184,7 @@ def body_posterior(case, ctx):
         raise Violation(f"covariance-psd:{tag}", f"posterior covariance eigenvalue {np.linalg.eigvalsh(sym).min():.3g}")
     if np.linalg.eigvalsh(ref["K"] - sym).min() < -slack:
         raise Violation(f"covariance-vs-prior:{tag}", f"prior - posterior covariance has eigenvalue {np.linalg.eigvalsh(ref['K'] - sym).min():.3g}")
-    tl = f * ref["scale_lml"]
+    tl = f * ref["scale_lml"] + ref["ro_lml"]
     ctx.ratio("evidence", abs(lml - ref["lml"]), tl)
     if not np.isfinite(lml) or abs(lml - ref["lml"]) > tl:
         raise Violation(f"evidence:{tag}", f"marginal_likelihood {lml!r} vs log N(y; A m, A K A^T + S) + m/2 log 2pi = {ref['lml']!r} (tol {tl:.3g})")
@@ -325,7 +328,7 @@ def body_history(case, ctx):
                     raise Violation(f"history:{what}", f"{where}: mean-only path off by {e:.3g} tolerances from the closed form")
             else:
                 v = float(inv.marginal_likelihood(arg)) if what == "evidence" else float(inv.marginal_likelihood_gradient(arg)[0])
-                tl = f * ref["scale_lml"]
+                tl = f * ref["scale_lml"] + ref["ro_lml"]
                 ctx.ratio("history", abs(v - ref["lml"]), tl)
                 if not abs(v - ref["lml"]) <= tl:
                     raise Violation(f"history:{what}", f"{where}: evidence {v!r} vs closed form {ref['lml']!r} (tol {tl:.3g})")
